@@ -84,7 +84,8 @@ def f32_overflow(a, b):
             continue
         if x.startswith('x') and y.startswith('x') and len(x) == 17 and len(y) == 17:
             fa, fb = tok_to_float(x), tok_to_float(y)
-            if (abs(fa) == float('inf') and abs(fb) > 3.4e38) or (fa == 0.0 and abs(fb) < 1.5e-45) or abs(fa - fb) <= 3e-7 * abs(fb):
+            if (abs(fa) == float('inf') and abs(fb) > 3.4e38) or (fa == 0.0 and abs(fb) < 1.5e-45) or abs(fa - fb) <= 3e-7 * abs(fb) \
+                    or (abs(fb) < 1.2e-38 and abs(fa - fb) <= 1.5e-45):
                 continue
         return False
     return True
